@@ -46,6 +46,8 @@ var Presets = map[string]*Config{
 	"script": func() *Config {
 		lib := bytesLib()
 		lib["ts.expand"] = LibFn{Lean: "GIV.Script.expand env", Ret: TBytes}
+		lib["ts.Getenv"] = LibFn{Lean: "GIV.Script.getenv env", Ret: TStr}
+		lib["regexp.QuoteMeta"] = LibFn{Lean: "GIV.Script.quoteMeta", Ret: TStr}
 		return &Config{
 			Lib:          lib,
 			Globals:      map[string]Global{},
@@ -54,7 +56,7 @@ var Presets = map[string]*Config{
 			ExtraParams:  []Param{{Lean: "env", Type: "GIV.Script.Env"}},
 			Abort:        map[string]bool{"ts.Fatalf": true},
 			IgnoreAssign: map[string]bool{"ts.line": true},
-			Rename:       map[string]string{"parse": "parse"},
+			Rename:       map[string]string{"parse": "parse", "expand_func1": "expandMapping"},
 		}
 	}(),
 	"imports": func() *Config {
